@@ -74,6 +74,20 @@ def source(kind="code"):
         ],
         "directives": [
             {"name": "tag", "desc": "tag it", "locations": ["FIELD", "FIELD_DEFINITION"], "args": [A("tag_name", "String", "x", desc="the tag")]},
+            {
+                # arguments typed by an input object, an enum, a list of input objects and a custom scalar:
+                # directive argument types must be re-pointed / filtered like every other reference
+                "name": "auth",
+                "desc": "authorise",
+                "locations": ["FIELD", "QUERY", "FIELD_DEFINITION"],
+                "args": [
+                    A("the_opts", "Filter", desc="options"),
+                    A("min_role", "Kind", "A"),
+                    A("all_opts", "[Filter!]"),
+                    A("since", "Stamp"),
+                    A("hidden_opts", "[HideIn!]!", []),
+                ],
+            },
             {"name": "rename", "locations": ["FIELD_DEFINITION"], "args": [A("to", "String!")]},
             {"name": "remove", "locations": ["FIELD_DEFINITION", "OBJECT"], "args": []},
         ],
